@@ -310,7 +310,8 @@ func (m *ReconcilePod) podDelete(ctx context.Context, namespacedName client.Obje
 	}
 	if haveFixedIP {
 		// for fixed ip , update podENI status to v1beta1.ENIPhaseDetaching
-		if prePodENI.Status.Phase == v1beta1.ENIPhaseDetaching {
+		// already detaching, or already detached: nothing is attached, Unbind must not go back to Detaching
+		if prePodENI.Status.Phase == v1beta1.ENIPhaseDetaching || prePodENI.Status.Phase == v1beta1.ENIPhaseUnbind {
 			return reconcile.Result{}, nil
 		}
 		prePodENICopy := prePodENI.DeepCopy()
